@@ -41,6 +41,7 @@ func runC10(c *core.Ctx) core.Meta {
 	prov := core.NewLocalProv(c)
 
 	checkPhysicalLayout(c, pint, prov)
+	checkRoundRobinCursors(c, pint)
 
 	// ---------------- R10.1 lock discipline of the allocator ----------------
 	st1 := c.Rule("R10.1", "every access to a field of memoryAllocatorImpl happens with its embedded mutex held: exported methods lock before touching a field and keep the lock to every exit; unexported helpers that touch fields are reached only from call sites that hold the lock of the same allocator", 15)
@@ -981,4 +982,103 @@ func typeMentions(t types.Type, name string) bool {
 		}
 	}
 	return false
+}
+
+// checkRoundRobinCursors (R10.14): an integer field that indexes a slice field of the same object
+// directly (s.A[s.cur]) has to stay below len(s.A) in every state the object is left in: every
+// store to the field is a value reduced modulo len(s.A) of the same object, or the constant 0.
+// A reader that applies the modulo itself does not make an unreduced store safe: another reader
+// (Remap / Distribute onto a unified device go through allocateMultipleUnifiedGPUPages) does not.
+func checkRoundRobinCursors(c *core.Ctx, pi *PkgInfo) {
+	st := c.Rule("R10.14", "a round-robin cursor that is used directly as an index (s.A[s.cur], found from the index expressions of the package) is stored only reduced modulo len(s.A) of the same object or as the constant 0, so that a sequence of allocations within capacity cannot leave it out of range for the reader that does not reduce it again", 2)
+	type cursor struct{ cur, arr *types.Var }
+	cursors := map[cursor]token.Pos{}
+	fieldLoad := func(v ssa.Value) (*types.Var, ssa.Value) {
+		for {
+			switch x := v.(type) {
+			case *ssa.Convert:
+				v = x.X
+				continue
+			case *ssa.ChangeType:
+				v = x.X
+				continue
+			}
+			break
+		}
+		ld, ok := v.(*ssa.UnOp)
+		if !ok || ld.Op != token.MUL {
+			return nil, nil
+		}
+		fa, ok := ld.X.(*ssa.FieldAddr)
+		if !ok {
+			return nil, nil
+		}
+		return fieldOfStruct(fa.X.Type(), fa.Field), fa.X
+	}
+	for _, fn := range pi.Funcs {
+		for _, b := range fn.Blocks {
+			for _, in := range b.Instrs {
+				ia, ok := in.(*ssa.IndexAddr)
+				if !ok {
+					continue
+				}
+				cur, base1 := fieldLoad(ia.Index)
+				arr, base2 := fieldLoad(ia.X)
+				if cur == nil || arr == nil || base1 != base2 {
+					continue
+				}
+				if _, isSlice := arr.Type().Underlying().(*types.Slice); !isSlice {
+					continue
+				}
+				k := cursor{cur, arr}
+				if _, ok := cursors[k]; !ok {
+					cursors[k] = ia.Pos()
+					st.Sample("%s: %s[%s] is indexed without a reduction", core.FuncName(fn), arr.Name(), cur.Name())
+				}
+			}
+		}
+	}
+	for _, fn := range pi.Funcs {
+		for _, b := range fn.Blocks {
+			for _, in := range b.Instrs {
+				sto, ok := in.(*ssa.Store)
+				if !ok {
+					continue
+				}
+				fa, ok := sto.Addr.(*ssa.FieldAddr)
+				if !ok {
+					continue
+				}
+				f := fieldOfStruct(fa.X.Type(), fa.Field)
+				for k := range cursors {
+					if k.cur != f {
+						continue
+					}
+					st.Instances++
+					c.MarkAnalysed(fn)
+					ok := false
+					how := "an unreduced value"
+					if kv, isC := core.ConstInt(sto.Val); isC && kv == 0 {
+						ok, how = true, "0"
+					}
+					if rem, isB := sto.Val.(*ssa.BinOp); isB && rem.Op == token.REM {
+						if call, isCall := rem.Y.(*ssa.Call); isCall {
+							if bi, isBi := call.Call.Value.(*ssa.Builtin); isBi && bi.Name() == "len" && len(call.Call.Args) == 1 {
+								if a, base := fieldLoad(call.Call.Args[0]); a == k.arr && base == fa.X {
+									ok, how = true, "a value % len("+k.arr.Name()+")"
+								} else {
+									how = "a value reduced modulo the length of something else"
+								}
+							}
+						}
+					}
+					st.Ob(ok)
+					st.Sample("%s: %s is stored as %s", core.FuncName(fn), f.Name(), how)
+					if !ok {
+						c.ReportAt("R10.14", fn, sto.Pos(), "cursor:"+f.Name()+":unreduced-store", core.FuncName(fn)+" stores "+how+" in "+f.Name()+", which indexes "+k.arr.Name()+" directly elsewhere ("+c.Position(cursors[k])+"): after enough single allocations the cursor is past the end and the next allocation that indexes with it (Remap / Distribute onto a unified device) panics with plenty of memory free")
+					}
+				}
+			}
+		}
+	}
 }
